@@ -209,8 +209,15 @@ class Interp:
                 return Int(why)
             if t == "float":
                 return Flt(why)
+            parts = split_union(t)
+            if parts and all(p in ("int", "bool") for p in parts):
+                return Int(why)
+            if parts and all(p in ("int", "float", "bool") for p in parts):
+                return Flt(why)
             if t.startswith("str"):
                 return Txt("raw", v.src or why)
+            if parts and "None" in parts and all(p in ("int", "None") for p in parts):
+                return alt(Int(why), Lit("None"))
             return Unk("opaque value (%s) formatted into string: %s" % (v.typ, why))
         if isinstance(v, VList):
             return v.sh
@@ -497,7 +504,11 @@ class Interp:
         tb = self.typename(b)
         if ta == tb:
             return a if isinstance(a, VOpq) else VOpq(ta)
-        return VOpq(ta + " | " + tb)
+        parts = []
+        for p in split_union(ta) + split_union(tb):
+            if p not in parts:
+                parts.append(p)
+        return VOpq(" | ".join(parts))
 
     def typename(self, v) -> str:
         if isinstance(v, VOpq):
@@ -706,6 +717,10 @@ class Interp:
                         parts.append(seq(self.to_shape(x, src(elt)), EB()))
                 return VList(seq(*parts))
             return VTuple(out, is_list=True)
+        if isinstance(itv, VList) and last and kind != "dict" and isinstance(g.target, ast.Name) \
+                and isinstance(elt, ast.Name) and elt.id == g.target.id \
+                and all(_is_presence_test(c, g.target.id) for c in g.ifs):
+            return itv      # dropping empty/None elements does not change the concatenation
         if not last or kind == "dict":
             if kind == "dict":
                 return VOpq("dict", src(n))
@@ -787,6 +802,16 @@ class Interp:
             return VStr(Unk("join with non-constant separator " + why))
         sh = self.list_shape(lv, why)
         return VStr(_join_shape(sh, sep))
+
+
+def _is_presence_test(c, name: str) -> bool:
+    if isinstance(c, ast.Name) and c.id == name:
+        return True
+    if isinstance(c, ast.Compare) and isinstance(c.left, ast.Name) and c.left.id == name and len(c.ops) == 1 \
+            and isinstance(c.ops[0], ast.IsNot) and isinstance(c.comparators[0], ast.Constant) \
+            and c.comparators[0].value is None:
+        return True
+    return False
 
 
 def _is_hex(v) -> bool:
